@@ -42,7 +42,7 @@ POOL = ["a", "b", "c", "d", "e", "f", "g", "h"]
 ABSENT = ["zz", "not_there", "a2"]
 LONG_NAMES = ["payload", "meta"]  # every object of the graph also carries these two attributes
 TYPE_NAMES = ["ndarray", "Tensor", "Parameter", "int", "float", "str", "bool", "list", "tuple", "dict", "set", "Path", "float64", "Leaf", "NoneType"]
-N_FAMILIES = {"quick": 12, "thorough": 24}
+N_FAMILIES = {"quick": 12, "thorough": 12}
 
 
 def plan(tier, seed):
@@ -63,7 +63,7 @@ def plan(tier, seed):
     for fam in range(nfam):
         specs.append({"family": fam, "S": [LONG_NAMES[fam % len(LONG_NAMES)]], "T": [], "S2": None, "store": "zip" if fam % 2 else "dir", "scalar_skip": True})
         specs.append({"family": fam, "S": [], "T": [TYPE_NAMES[fam % len(TYPE_NAMES)]], "S2": None, "store": "dir" if fam % 2 else "zip", "scalar_skip": True})
-    nrand = 260 if tier == "quick" else 2400
+    nrand = 260 if tier == "quick" else 1500
     for r in range(nrand):
         fam = r % nfam
         k = int(rng.integers(0, 9))
